@@ -226,7 +226,9 @@ func c14Run(c c14case) [][]int64 {
 		}
 		ic := gclgrpc.StreamServerInterceptor(opts...)
 		fs := &fakeStream{log: log, callErr: &callErr}
-		_ = ic(nil, fs, &grpc.StreamServerInfo{FullMethod: "/s"}, func(srv interface{}, ss grpc.ServerStream) error {
+		// every kind of streaming method (client-streaming, server-streaming, both, neither flag set): the limiters see every message alike
+		kindFlags := (len(c.Ops) + len(c.Opts)/2) % 4
+		_ = ic(nil, fs, &grpc.StreamServerInfo{FullMethod: "/s", IsClientStream: kindFlags&1 != 0, IsServerStream: kindFlags&2 != 0}, func(srv interface{}, ss grpc.ServerStream) error {
 			for _, op := range c.Ops {
 				log.ev = nil
 				ok, cls = op[1] != 0, op[3]
